@@ -185,6 +185,9 @@ impl<'a> World<'a> {
             self.cmp(&own, &name, after, "patch-counts", "all", ca, cb);
         }
         self.res.hit("probe.c09.replica_compared");
+        if self.own == "C07" || self.own == "*" {
+            self.check_authz(r);
+        }
     }
 
     #[allow(clippy::too_many_arguments)]
